@@ -54,11 +54,11 @@ pub fn judge(c: &SessionCase, ev: &mut Local) -> Result<(), Fail> {
     let mode = c.mode();
     let stream = c.stream();
     let max_reads = boundaries(&stream, &mode).len() + c.steps.len() + 6;
-    let b = run_blocking(&mode, false, c.steps.clone(), c.writes.clone(), max_reads);
+    let b = run_blocking(&mode, c.verify, c.steps.clone(), c.writes.clone(), max_reads);
     if let Some(p) = &b.panic {
         fail!("c07:panic", "blocking: {p}");
     }
-    let t = run_tokio(&mode, false, c.steps.clone(), c.writes.clone(), max_reads);
+    let t = run_tokio(&mode, c.verify, c.steps.clone(), c.writes.clone(), max_reads);
     if let Some(p) = &t.panic {
         fail!("c07:panic", "tokio: {p}");
     }
@@ -154,13 +154,14 @@ pub fn run(run: &mut Run) {
         TINY_NONE/reqi 0 frame (in the connection's size mode) if the result being returned is a keep-alive, and nothing otherwise; the \
         number of replies equals the number of keep-alives counted independently in the byte stream. Histories: all 30 TINY sub-types x \
         256 request ids embedded between other packets, whole and byte-wise (complete), and generated sessions of all packet kinds with \
-        many keep-alives (several per read, split across reads, transient faults, piecewise write acceptance), blocking and tokio. \
+        many keep-alives (several per read, split across reads, transient faults, piecewise write acceptance, version verification on and off with VER packets of any version), blocking and tokio. \
         Non-trivial = the history holds at least one keep-alive and one other packet."
         .into();
     run.assumptions = vec!["a keep-alive is recognised in the results by its rendering `Tiny { reqi: RequestId(0), subt: None }` and in the byte stream by the bytes (size, 3, 0, 0)".into()];
     run.enumerate(&AllTiny, 2 * 30 * 256, true, |i| Some((i >= 30 * 256, ((i % (30 * 256)) / 256) as u8, (i % 256) as u8)));
     let n = run.budget(40_000, 2_000_000);
-    run.prop(&Histories, session_strategy(12, 8, 1, true, Some(false)), n);
+    // version verification on and off, with VER packets of any version in the history: a rejected VER is "another packet" too
+    run.prop(&Histories, session_strategy(12, 8, 3, true, None), n);
     let n = run.budget(1_000, 50_000);
     run.prop(&Histories, session_strategy(200, 10, 1, true, Some(false)), n);
 }
